@@ -5,7 +5,10 @@ FIX_COMMITS = ["8798a69", "9de7a26", "f89963f", "7213fd6", "49d8190", "d095b21"]
 
 NOTES = ("Runtime monitoring only: every check runs the real sodg code built from /repo's working tree under generated "
          "workloads with an oracle observing every call. Exit 0 held / 1 VIOLATION / 2 INCONCLUSIVE (machinery problem, "
-         "never a verdict). Known findings: known_findings.json. Design: DESIGN.md.")
+         "never a verdict). Known findings: known_findings.json. Design: DESIGN.md. The thorough tier of every check adds two stages: `reach` "
+         "(LLVM source coverage of /repo/src under the check's own workload, written into the evidence; inconclusive if none of the anchored "
+         "code was executed) and, except for C07, `rel` (the same monitors over other histories in a release build of sodg). Odd-numbered "
+         "shards run with a trace-level logger installed, so the code inside sodg's log statements is executed under the monitors too.")
 
 TRUST = ("Trusted: the harness (recorder, generators), the reference model / trace rules written from the property text, "
          "rustc; coverage is what the evidence file reports for that run, nothing beyond it.")
@@ -68,7 +71,7 @@ CHECKS = {
     "C09": {
         "category": "fault_enumeration",
         "text": "Fault enumeration: for each sampled image every prefix length 0..size-1 is loaded (exhaustive per image), and real partial "
-                "writes of save() are injected through RLIMIT_FSIZE; load() must return Err every time.",
+                "writes of save() are injected through RLIMIT_FSIZE, on a fresh path and over an earlier complete image; load() must return Err every time.",
         "design_ref": "§4 C09",
         "note": TRUST + " Images are sampled (from generated histories); the cut points per image are enumerated completely.",
         "technique": "fault injection (truncation at every byte; kernel-enforced partial writes) with a result oracle",
@@ -103,7 +106,8 @@ CHECKS = {
     },
     "C15": {
         "text": "Exploration (complete sweep inside the stated bounds): every accessor/index/range of Hex in every representation compared "
-                "with the same operation on the byte slice, including the panic/no-panic outcome.",
+                "with the same operation on the byte slice, including the panic/no-panic outcome; every constructor (from_vec, the enum variants, "
+                "empty, from_slice, from_str_bytes, From<i64/i32/i16/i8/f64/f32/bool>) must hold exactly the bytes it was built from.",
         "design_ref": "§4 C15",
         "note": TRUST + " Oracle: Rust's slice operations.",
         "technique": "differential monitor against the byte slice (value and panic outcome)",
@@ -134,7 +138,7 @@ CHECKS = {
     },
     "C12": {
         "text": "Exploration: right graphs that fall apart in every generated way (extra vertices, detached sub-trees, re-pointed edges, graphs that went through slice()/clone()); Ok must imply that every present vertex is reachable, "
-                "Err must name the missed vertices.",
+                "Err must name the missed vertices; one case in four runs right after another, rightly rejected merge into the same left graph.",
         "design_ref": "§4 C12",
         "note": TRUST,
         "technique": "result monitor with independently computed reachability",
@@ -156,7 +160,8 @@ CHECKS = {
     "C07": {
         "text": "Exploration under sanitizers: the same hostile workload (legal prefix, one limit overrun that must panic, tainted phase) is run "
                 "natively with debug assertions, under AddressSanitizer (the instrument the property names), under Miri in two modes and (thorough) "
-                "under valgrind memcheck; each instrument first has to report a canary. Reports are classified into the four classes of the statement; "
+                "under valgrind memcheck; each instrument first has to report a canary. In-limits calls of the prefix must complete, the overrun must panic, "
+                "and right after the caught overrun panic the read-only calls on every present vertex must still complete. Reports are classified into the four classes of the statement; "
                 "other UB kinds make the run inconclusive, never a verdict.",
         "design_ref": "§4 C07, §3.2",
         "note": TRUST + " Trusted: ASan/Miri/valgrind. ASan cannot see overflows inside one heap block and Miri only sees its small workloads; "
